@@ -408,15 +408,21 @@ class ImplWorld:
                 self.annot = 'copy %s %s [ ]' % (w, v)
             V[w] = src.copy(); return None
         if kw == 'copyinto':
-            v = T.next(); w = T.next(); V[v].copy(V[w]); return None
+            # (the documented result of copy(c) / snap(c) / compose(b, c) is the target c itself)
+            v = T.next(); w = T.next(); r_ = V[v].copy(V[w]); return None if r_ is V[w] else 'result-is-not-the-target'
         if kw == 'snapinto':
-            f = T.next(); w = T.next(); V[f].snap(V[w]); return None
+            f = T.next(); w = T.next(); r_ = V[f].snap(V[w]); return None if r_ is V[w] else 'result-is-not-the-target'
         if kw == 'deepcopy':
-            w = T.next(); v = T.next(); V[w] = _copy.deepcopy(V[v]); return None
+            w = T.next(); v = T.next(); V[w] = _copy.deepcopy(V[v])
+            # what the oracles remember about v (shadow logs keyed by variable) holds of its deep copy too
+            for k_ in list(self.ostate):
+                if isinstance(k_, str) and k_.endswith(':' + v):
+                    self.ostate[k_[:-len(v)] + w] = _copy.deepcopy(self.ostate[k_])
+            return None
         if kw == 'compose':
             w = T.next(); a = T.next(); b = T.next(); V[w] = V[a].compose(V[b]); return None
         if kw == 'composeinto':
-            a = T.next(); b = T.next(); d = T.next(); V[a].compose(V[b], V[d]); return None
+            a = T.next(); b = T.next(); d = T.next(); r_ = V[a].compose(V[b], V[d]); return None if r_ is V[d] else 'result-is-not-the-target'
         if kw == 'flag':
             w = T.next(); v = T.next(); V[w] = V[v].flagComplex(); return None
         if kw == 'json':
